@@ -153,6 +153,7 @@ fn expect_ok(c: &Case, o: &Outcome) -> Result<(), String> {
 // ---------------------------------------------------------------------------
 
 pub fn c01(ctx: &Ctx, rep: &mut Report) {
+    crate::unit::uf_unit(ctx, rep);
     rep.rule = "random (alg, method, width, class, n) with valid shape; non-trivial = n >= 3; distinct by hash of the request line".into();
     let mut rng = Rng::new(ctx.seed);
     let mut cases = crate::core::corpus_cases("C01");
